@@ -62,7 +62,9 @@ def fn_doc(rng):
         elif r < 0.86:
             # references inside emphasis together with a link whose own text holds a reference (the emphasis handler looks ahead)
             a, b = ref(), ref()
-            lines.append(rng.choice(["*see %s and [link %s](/u)*", "**x %s [t %s](/u 't') y**", "_%s `c` [%s](/u)_", "*%s <b> [a %s](/u)*"]) % (a, b)); lines.append("")
+            lines.append(rng.choice(["*see %s and [link %s](/u)*", "**x %s [t %s](/u 't') y**", "_%s `c` [%s](/u)_", "*%s <b> [a %s](/u)*",
+                                     # a reference right after "!" (not an image), and references deep inside an image description
+                                     "Wow!%s and again!%s", "![*see [the link %s](/u) here*](/pic.png) then %s", "![**[x %s](/u)** _[y %s](/v)_](/p.png)", "a!%s ![b!%s](/i.png)"]) % (a, b)); lines.append("")
         elif r < 0.90:
             # a definition without text (the note exists and is empty)
             k = rng.choice(keys); defined.append(k)
@@ -176,6 +178,22 @@ def html_oracle(ctx, docs):
             ctx.fail("section-count", "%d footnote sections for %d referenced notes" % (nsec, len(first)), rep); continue
         if first and not html.rstrip().endswith("</section>"):
             ctx.fail("section-not-last", "footnotes section is not at the end", rep); continue
+        # a reference to a DEFINED note in running text is a link: nothing of the form [^key] with a defined key may be left as text
+        # (outside code, image descriptions, the notes' own texts and TOC entries, where references are literal by design)
+        body_html = html.split('<section class="footnotes">')[0]
+        body_html = re.sub(r'<details class="toc".*?</details>', "", body_html, flags=re.S)
+        body_html = re.sub(r'<code>.*?</code>|<pre>.*?</pre>| alt="[^"]*"', "", body_html, flags=re.S)
+        from mistune.util import unikey
+        import html as _h
+        defined_keys = set()
+        try:
+            _, st_ = ast.parse(doc)
+            defined_keys = set((st_.env.get("ref_footnotes") or {}).keys())
+        except Exception:
+            pass
+        left = [k for k in re.findall(r"\[\^([^\]\n]+)\]", _h.unescape(body_html)) if unikey(k) in defined_keys]
+        if left:
+            ctx.fail("defined-reference-literal", "references %r to defined notes are left as literal text in %r" % (left, doc), rep); continue
         # token-list output carries the same notes
         sect = [t for t in toks if t["type"] == "footnotes"]
         t_items = [c["attrs"]["index"] for s in sect for c in s["children"]]
